@@ -1,4 +1,5 @@
 import FxVerif.Model.C10
+import FxVerif.Model.C10Tok
 import FxVerif.Model.Util
 /-! line-protocol driver for the C10 dispatcher model (everything goes through `runGen`, i.e. the regenerated step order,
 governance-check program, closures and `decrementAllowance`):
@@ -6,6 +7,10 @@ governance-check program, closures and `decrementAllowance`):
 * `disp <kind> <method> <methodIdHex> <writer> <addr> <entries|->` → ran | blocked:readonly | blocked:disabled   (stateless)
 * `set shares <a> <n>` | `set allow <a> <b> <n>` | `set bal <a> <n>` | `set pool <id> <sender> <amount>` → ok
 * `h <kind> <caller> <origin> <addr> <methodIdHex> <entries|-> <method> <args…>` → `<status> <observed values>`   (stateful history)
+* `hu …` (same arguments): the call is made in a frame that reverts afterwards and is caught → `undone <observed values>`, state unchanged
+* `tkset <token> <acct> <token balance> <ERC-20 allowance to the precompile> <coins>` → ok;  `tk <token> <fx|erc20|coin> <caller> <amount>` →
+  `<ok|err> t=<token balance of the caller> a=<its allowance to the precompile>`: the regenerated ERC-20 leg (`Gen.C10Tok.erc20Leg`)
+  interpreted on the token world of that token (accounts: 7 = precompile, 8 = erc20 module, 9 = the token contract's own account)
 -/
 open FxVerif FxVerif.Util FxVerif.Gen.C09 FxVerif.Model.C10
 
@@ -87,6 +92,56 @@ def observe (c self : Addr) (call : Call) (w : World) : String :=
 def entriesOf (ents : String) : List (List Char) :=
   if ents == "-" then [] else (ents.splitOn ",").map String.toList
 
+open FxVerif.Model.C10Tok in
+def tw0 : TW := ⟨fun _ => 0, fun _ _ => 0, fun _ => 0⟩
+
+structure DSt where
+  w : World
+  t : Nat → FxVerif.Model.C10Tok.TW
+
+def dInit : DSt := ⟨wInit, fun _ => tw0⟩
+
+def pairKindOf : String → Option FxVerif.Model.C10Tok.PairKind
+  | "fx" => some ⟨true, true, false⟩
+  | "coin" => some ⟨true, false, false⟩
+  | "erc20" => some ⟨false, false, true⟩
+  | _ => none
+
+def stepTok (st : DSt) (ws : List String) : Option (DSt × String) :=
+  match ws with
+  | ["tkset", ti, a, b, al, c] =>
+    match nats [ti, a, b, al, c] with
+    | some [ti, a, b, al, c] =>
+      let w := st.t ti
+      let w' : FxVerif.Model.C10Tok.TW :=
+        { tok := FxVerif.Model.C10Tok.upd w.tok a b, appr := FxVerif.Model.C10Tok.upd2 w.appr a 7 al, coin := FxVerif.Model.C10Tok.upd w.coin a c }
+      some ({ st with t := fun i => if i = ti then w' else st.t i }, "ok")
+    | _ => none
+  | ["tk", ti, kind, c, a] =>
+    match nats [ti, c, a], pairKindOf kind with
+    | some [ti, c, a], some pk =>
+      let w := st.t ti
+      match FxVerif.Model.C10Tok.runOps pk ⟨c, 7, 8, 9⟩ a FxVerif.Gen.C10Tok.erc20Leg w with
+      | some (some w') => some ({ st with t := fun i => if i = ti then w' else st.t i }, s!"ok t={w'.tok c} a={w'.appr c 7}")
+      | some none => some (st, s!"err t={w.tok c} a={w.appr c 7}")
+      | none => some (st, "unknown-step")
+    | _, _ => none
+  | ["tkb", ti, _kind, c, a] =>
+    -- bridgeCall token list: keeper-level conversion of the HOLDER's tokens (no ERC-20 allowance involved); the holder is
+    -- the provenance the regenerated closure row gives for EvmToBaseCoin's last argument (Props: bridge_call_token_holder_is_caller)
+    match nats [ti, c, a] with
+    | some [ti, c, a] =>
+      let w := st.t ti
+      let holderIsCaller := FxVerif.Gen.C10.closures.any (fun cl => cl.abiName == "bridgeCall" &&
+        cl.steps.any (fun s => s.callee == "EvmToBaseCoin" && s.args.getLast? == some "caller"))
+      if !holderIsCaller then some (st, "unknown-step")
+      else if w.tok c < a then some (st, s!"err t={w.tok c} a={w.appr c 7}")
+      else
+        let w' : FxVerif.Model.C10Tok.TW := { w with tok := FxVerif.Model.C10Tok.upd w.tok c (w.tok c - a) }
+        some ({ st with t := fun i => if i = ti then w' else st.t i }, s!"ok t={w'.tok c} a={w'.appr c 7}")
+    | _ => none
+  | _ => none
+
 def step (st : World) (line : String) : World × String :=
   match words line with
   | "reset" :: _ => (wInit, "ok")
@@ -124,6 +179,18 @@ def step (st : World) (line : String) : World × String :=
         | _ => (st, if r.executed then "ran" else "not-run")
       | none => (st, "no-readonly-fact")
     | none => (st, "bad-op")
+  | "hu" :: kind :: caller :: origin :: addr :: mid :: ents :: m :: args =>
+    -- the same call made in a frame that REVERTs afterwards (caught): it ran, and nothing of it remains
+    match kindOf kind, nats [caller, origin], hcallOf m args with
+    | some k, some [c, o], some call =>
+      match readonlyFlag k with
+      | some ro =>
+        let r := runGen (entriesOf ents) ro addr.toList mid.toList ⟨c, o, selfOf addr, hvalueOf m args⟩ call st
+        match r.out with
+        | .ok _ => (st, "undone " ++ observe c (selfOf addr) call st)
+        | .error _ => (st, statusOf call r ++ " " ++ observe c (selfOf addr) call st)
+      | none => (st, "no-readonly-fact")
+    | _, _, _ => (st, "bad-op")
   | "h" :: kind :: caller :: origin :: addr :: mid :: ents :: m :: args =>
     match kindOf kind, nats [caller, origin], hcallOf m args with
     | some k, some [c, o], some call =>
@@ -136,4 +203,12 @@ def step (st : World) (line : String) : World × String :=
     | _, _, _ => (st, "bad-op")
   | _ => (st, "bad-op")
 
-def main : IO Unit := runDriver step wInit
+def stepD (st : DSt) (line : String) : DSt × String :=
+  match words line with
+  | "reset" :: _ => (dInit, "ok")
+  | "tkset" :: r => (match stepTok st ("tkset" :: r) with | some x => x | none => (st, "bad-op"))
+  | "tk" :: r => (match stepTok st ("tk" :: r) with | some x => x | none => (st, "bad-op"))
+  | "tkb" :: r => (match stepTok st ("tkb" :: r) with | some x => x | none => (st, "bad-op"))
+  | _ => let r := step st.w line; ({ st with w := r.1 }, r.2)
+
+def main : IO Unit := runDriver stepD dInit
